@@ -323,6 +323,8 @@ let reg_case toks impl =
      plus the registry ops A L I of reg (exported API)
    no '@' tokens: pools of one family are disjoint in these cases, so walks are inferred *)
 let opt_key = function Some k -> tok_of_key k | None -> "-"
+(* contexts persist per session id within a case: Y/Z start a fresh context, y/z re-enter with the kept one,
+   n<sid> / m<sid> clear the address fields (what the protocol code does after a refused reservation) *)
 let res_case toks impl =
   let (specs, r) = parse_profiles toks in
   let ops = match r with ";" :: o -> o | _ -> failwith "res: no ;" in
@@ -330,60 +332,72 @@ let res_case toks impl =
   | None -> ["hang"]
   | Some pfs ->
   let st = ref (reg_init variant pfs) in
+  let c4 : (string, sctx4) Hashtbl.t = Hashtbl.create 8 and c6 : (string, sctx6) Hashtbl.t = Hashtbl.create 8 in
+  let run4 sid (cx : sctx4) it =
+    let obs = match cx.c4_addr, it with
+      | None, Some "nil" -> None
+      | None, Some t when String.length t > 1 && t.[0] = 'r' ->
+        (match split_on '@' (rest t) with
+         | [a; k] when k <> "-" -> (try Some (key_of_tok k, OA (addr_exn a)) with _ -> raise (Stop "INADMISSIBLE:unparseable"))
+         | _ -> raise (Stop "INADMISSIBLE:unparseable"))
+      | None, _ -> raise (Stop "INADMISSIBLE:unparseable")
+      | Some _, _ -> None in
+    let w = match cx.c4_addr with Some a -> walk_obs !st F4 (RA (Some a)) None | None -> None in
+    match resolve4_ctx variant !st (n_of_str sid) cx obs w with
+    | Some ((st', cx'), r) ->
+      st := st'; Hashtbl.replace c4 sid cx';
+      (match r with R4Nil -> "nil" | R4 (a, pool) -> "r" ^ tok_of_addr a ^ "@" ^ opt_key pool)
+    | None -> raise (Stop ("INADMISSIBLE:" ^ why_alloc !st F4 cx.c4_pf cx.c4_ov cx.c4_vrf obs)) in
+  let run6 sid (cx : sctx6) it =
+    (* impl token: <nil|ok>;na=<addr|->;napool=<k|->;pd=<p..|->;pdpool=<k|-> *)
+    let fields = match it with
+      | Some t -> List.filter_map (fun f -> match String.index_opt f '=' with
+          | Some i -> Some (String.sub f 0 i, String.sub f (i+1) (String.length f - i - 1)) | None -> None)
+          (split_on ';' t)
+      | None -> [] in
+    let fld n = try List.assoc n fields with Not_found -> raise (Stop "INADMISSIBLE:unparseable") in
+    let obsna = match cx.c6_na with
+      | Some _ -> None
+      | None -> if fld "na" = "-" then None else
+          (try Some (key_of_tok (fld "napool"), OA (addr_exn (fld "na"))) with Stop s -> raise (Stop s) | _ -> raise (Stop "INADMISSIBLE:unparseable")) in
+    let obspd = match cx.c6_pd with
+      | Some _ -> None
+      | None -> if fld "pd" = "-" then None else
+          (match obs_pfx (Some (fld "pd")) with
+           | Some ((ip, o), b) -> (try Some (key_of_tok (fld "pdpool"), OP (ip, o, b)) with _ -> raise (Stop "INADMISSIBLE:unparseable"))
+           | None -> None) in
+    let wna = match cx.c6_na with Some a -> walk_obs !st FNA (RA (Some a)) None | None -> None in
+    let wpd = match cx.c6_pd with Some p -> walk_obs !st FPD (RP p) None | None -> None in
+    match resolve6_ctx variant !st (n_of_str sid) cx obsna obspd wna wpd with
+    | Some ((st', cx'), r) ->
+      st := st'; Hashtbl.replace c6 sid cx';
+      Printf.sprintf "%s;na=%s;napool=%s;pd=%s;pdpool=%s;rna=%s;rpd=%s" (if r.r6_nil then "nil" else "ok")
+        (match cx'.c6_na with Some a -> tok_of_addr a | None -> "-") (opt_key cx'.c6_napool)
+        (match r.r6_pd with Some o -> show_gobs o | None -> "-") (opt_key cx'.c6_pdpool)
+        (if r.r6_nil then "-" else opt_key r.r6_napool) (if r.r6_nil then "-" else opt_key r.r6_pdpool)
+    | None -> raise (Stop "INADMISSIBLE:resolve6") in
   run_ops ops impl (fun op it ->
     match op.[0] with
     | 'Y' ->
       (match split_on ',' (rest op) with
        | [s; pf; ov; vrf; have] ->
          let have = if have = "-" then None else Some (unmap (addr_exn have)) in
-         let obs = match have, it with
-           | None, Some "nil" -> None
-           | None, Some t when String.length t > 1 && t.[0] = 'r' ->
-             (match split_on '@' (rest t) with
-              | [a; k] when k <> "-" -> (try Some (key_of_tok k, OA (addr_exn a)) with _ -> raise (Stop "INADMISSIBLE:unparseable"))
-              | _ -> raise (Stop "INADMISSIBLE:unparseable"))
-           | None, _ -> raise (Stop "INADMISSIBLE:unparseable")
-           | Some _, _ -> None in
-         let w = match have with Some a -> walk_obs !st F4 (RA (Some a)) None | None -> None in
-         (match resolve4 variant !st (n_of_str pf) (n_of_str ov) (n_of_str vrf) (n_of_str s) have obs w with
-          | Some (st', R4Nil) -> st := st'; "nil"
-          | Some (st', R4 (a, pool)) -> st := st'; "r" ^ tok_of_addr a ^ "@" ^ opt_key pool
-          | None -> raise (Stop ("INADMISSIBLE:" ^ why_alloc !st F4 (n_of_str pf) (n_of_str ov) (n_of_str vrf) obs)))
+         run4 s { c4_pf = n_of_str pf; c4_ov = n_of_str ov; c4_vrf = n_of_str vrf; c4_addr = have; c4_pool = None } it
        | _ -> failwith "Y")
+    | 'y' -> (match Hashtbl.find_opt c4 (rest op) with Some cx -> run4 (rest op) cx it | None -> "noctx")
+    | 'n' -> (match Hashtbl.find_opt c4 (rest op) with
+        | Some cx -> Hashtbl.replace c4 (rest op) { cx with c4_addr = None }; "ok" | None -> "noctx")
     | 'Z' ->
       (match split_on ',' (rest op) with
        | [s; pf; naov; pdov; vrf; hna; hpd] ->
          let hna = if hna = "-" then None else Some (unmap (addr_exn hna)) in
          let hpd = if hpd = "-" then None else Some (pfx_of_tok hpd) in
-         (* impl token: <nil|ok>:na=<addr|->:napool=<k|->:pd=<p..|->:pdpool=<k|-> *)
-         let fields = match it with
-           | Some t -> List.filter_map (fun f -> match String.index_opt f '=' with
-               | Some i -> Some (String.sub f 0 i, String.sub f (i+1) (String.length f - i - 1)) | None -> None)
-               (split_on ';' t)
-           | None -> [] in
-         let fld n = try List.assoc n fields with Not_found -> raise (Stop "INADMISSIBLE:unparseable") in
-         let obsna = match hna with
-           | Some _ -> None
-           | None -> if fld "na" = "-" then None else
-               (try Some (key_of_tok (fld "napool"), OA (addr_exn (fld "na"))) with Stop s -> raise (Stop s) | _ -> raise (Stop "INADMISSIBLE:unparseable")) in
-         let obspd = match hpd with
-           | Some _ -> None
-           | None -> if fld "pd" = "-" then None else
-               (match obs_pfx (Some (fld "pd")) with
-                | Some ((ip, o), b) -> (try Some (key_of_tok (fld "pdpool"), OP (ip, o, b)) with _ -> raise (Stop "INADMISSIBLE:unparseable"))
-                | None -> None) in
-         let wna = match hna with Some a -> walk_obs !st FNA (RA (Some a)) None | None -> None in
-         (* the PD walk is inferred on the state after the IA_NA part; PD allocators are untouched by it *)
-         let wpd = match hpd with Some p -> walk_obs !st FPD (RP p) None | None -> None in
-         (match resolve6 variant !st (n_of_str pf) (n_of_str naov) (n_of_str pdov) (n_of_str vrf) (n_of_str s)
-                  hna hpd obsna obspd wna wpd with
-          | Some (st', r) ->
-            st := st';
-            Printf.sprintf "%s;na=%s;napool=%s;pd=%s;pdpool=%s" (if r.r6_nil then "nil" else "ok")
-              (match r.r6_na with Some a -> tok_of_addr a | None -> "-") (opt_key r.r6_napool)
-              (match r.r6_pd with Some o -> show_gobs o | None -> "-") (opt_key r.r6_pdpool)
-          | None -> raise (Stop "INADMISSIBLE:resolve6"))
+         run6 s { c6_pf = n_of_str pf; c6_naov = n_of_str naov; c6_pdov = n_of_str pdov; c6_vrf = n_of_str vrf;
+                  c6_na = hna; c6_pd = hpd; c6_napool = None; c6_pdpool = None } it
        | _ -> failwith "Z")
+    | 'z' -> (match Hashtbl.find_opt c6 (rest op) with Some cx -> run6 (rest op) cx it | None -> "noctx")
+    | 'm' -> (match Hashtbl.find_opt c6 (rest op) with
+        | Some cx -> Hashtbl.replace c6 (rest op) { cx with c6_na = None; c6_pd = None }; "ok" | None -> "noctx")
     | _ -> let (k, _) = reg_op !st op it in reg_step_show st k false)
 
 let () =
